@@ -217,7 +217,8 @@ def oracle_cases(ctx, corr):
     again = [dict(c, timeout_first=True) for c in (sc.CORPUS[4], sc.CORPUS[6], sc.CORPUS[0])]
     # function models whose callable returns the ints 0 / 1 (equal to False / True)
     ints = [dict(c, model='pyint') for c in sc.CORPUS[:8]]
-    return again + ints + cases
+    wide = [sc.pinned_wide_case(ctx.rng, 3, r, k) for r, k in ((17, 2), (18, 3), (21, 1), (24, 2))]
+    return again + ints + wide + cases
 
 
 def oracle(case):
